@@ -992,3 +992,194 @@ Proof.
   unfold pos_of. rewrite CU, Z.eqb_refl. cbn [negb].
   split; [apply good_add_bad; exact G|right; apply Inv_bad; exact I].
 Qed.
+
+(* ---- push_lk: publish / batch / close / ~publisher ---- *)
+Lemma freelist_map_clear rs nf fl : freelist rs nf fl -> freelist (map clear_reg rs) nf fl.
+Proof.
+  assert (CU : forall x, r_used (clear_reg x) = r_used x) by (intros x; unfold clear_reg; destruct (r_used x) eqn:E; cbn; congruence).
+  assert (CP : forall x, r_pos (clear_reg x) = r_pos x) by (intros x; unfold clear_reg; destruct (r_used x); reflexivity).
+  induction 1 as [|h t L U N F IH].
+  - replace (zlen rs) with (zlen (map clear_reg rs)) by apply zlen_map. constructor.
+  - constructor; [rewrite map_length; exact L|rewrite rget_map_clear, CU; exact U|exact N|].
+    rewrite rget_map_clear, CP. exact IH.
+Qed.
+
+Lemma awt_clear l b : NoDup (flat_map awt_of l) -> (forall a, In a (flat_map awt_of l) -> a < b) ->
+  NoDup (flat_map awt_of (map clear_reg l)) /\ (forall a, In a (flat_map awt_of (map clear_reg l)) -> a < b).
+Proof.
+  assert (INC : forall l a, In a (flat_map awt_of (map clear_reg l)) -> In a (flat_map awt_of l)).
+  { induction l0 as [|x l0 IH]; cbn; intros a I; [exact I|]. apply in_app_iff in I. apply in_app_iff.
+    destruct I as [I|I]; [|right; apply IH; exact I]. left. unfold clear_reg in I. destruct (r_used x); [destruct I|exact I]. }
+  intros N B. split; [|intros a I; apply B, INC, I].
+  induction l as [|x l IH]; cbn in *; [constructor|].
+  assert (N2 : NoDup (flat_map awt_of (map clear_reg l))).
+  { apply IH; [apply NoDup_app_remove_l in N; exact N|]. intros a I. apply B. apply in_app_iff. right. exact I. }
+  unfold clear_reg at 1. destruct (r_used x); [cbn; exact N2|].
+  clear IH B. induction (awt_of x) as [|a ax IHa]; cbn in *; [exact N2|].
+  inversion N as [|? ? NA NN]; subst. constructor; [|apply IHa; exact NN].
+  intros I. apply NA. apply in_app_iff in I. apply in_app_iff. destruct I as [I|I]; [left; exact I|right; apply INC; exact I].
+Qed.
+
+Lemma get_map {A B} (f : A -> B) l s : get (map (option_map f) l) s = option_map f (get l s).
+Proof.
+  unfold get. rewrite nth_error_map. destruct (nth_error l s) as [[x|]|]; reflexivity.
+Qed.
+
+Lemma nthz_app lg vs i : 0 <= i < zlen lg -> nthz (lg ++ vs) i = nthz lg i.
+Proof. intros H. unfold nthz. apply app_nth1. unfold zlen in H. lia. Qed.
+
+Lemma contig_ext start lg vs d : contig_b start lg d = true -> contig_b start (lg ++ vs) d = true.
+Proof.
+  induction d as [|[[p v] k] d IH]; [reflexivity|]. rewrite !contig_b_cons. intros H.
+  apply andb_prop in H as (H & H5). apply andb_prop in H as (H & H4). apply andb_prop in H as (H & H3).
+  apply andb_prop in H as (H1 & H2).
+  rewrite IH by exact H5. rewrite H1, H2. rewrite zlen_app. pose proof (zlen_nonneg vs).
+  rewrite nthz_app by lia. rewrite H4. cbn. rewrite andb_true_r. lia.
+Qed.
+
+Lemma skipval_ext t lg vs x : skipval_b t lg x = true -> skipval_b t (lg ++ vs) x = true.
+Proof.
+  destruct x as [[p v] k]. unfold skipval_b. intros H. rewrite zlen_app. pose proof (zlen_nonneg vs).
+  apply andb_prop in H as (H & H5). apply andb_prop in H as (H & H4). apply andb_prop in H as (H & H3).
+  apply andb_prop in H as (H1 & H2).
+  rewrite nthz_app by lia. rewrite H1, H2, H4, H5. cbn [andb]. rewrite andb_true_r. lia.
+Qed.
+
+Lemma rec_good_ext lg vs r r' : m_mode r' = m_mode r -> m_start r' = m_start r -> m_deliv r' = m_deliv r ->
+  m_eos r' = m_eos r -> m_eos_ok r' = m_eos_ok r ->
+  rec_good_b lg (Some r) = true -> rec_good_b (lg ++ vs) (Some r') = true.
+Proof.
+  intros E1 E2 E3 E4 E5. unfold rec_good_b. rewrite E1, E2, E3, E4, E5. intros H.
+  apply andb_prop in H as (H1 & H2). rewrite H2, andb_true_r.
+  destruct (m_mode r =? 0); [apply contig_ext; exact H1|].
+  apply andb_prop in H1 as (H3 & H4). rewrite H3. cbn [andb].
+  rewrite forallb_forall in *. intros x Ix. apply skipval_ext. apply H4. exact Ix.
+Qed.
+
+Definition wk (n mx : Z) (r : srec) : srec := lag_rec n mx (wake_rec r).
+
+Lemma wk_fields n mx r : m_live (wk n mx r) = m_live r /\ m_mode (wk n mx r) = m_mode r /\ m_start (wk n mx r) = m_start r /\
+  m_cur (wk n mx r) = m_cur r /\ m_deliv (wk n mx r) = m_deliv r /\ m_eos (wk n mx r) = m_eos r /\
+  m_eos_ok (wk n mx r) = m_eos_ok r /\ m_kicked (wk n mx r) = m_kicked r /\
+  m_pc (wk n mx r) = match m_pc r with PParked _ => PAdv | p => p end /\
+  m_lost (wk n mx r) = (m_lost r || ((m_mode r =? 0) && (mx <? n - consumed r))).
+Proof.
+  unfold wk, lag_rec, wake_rec, consumed.
+  destruct (m_pc r) eqn:PC; cbn [with_pc m_mode m_start m_deliv];
+    destruct ((m_mode r =? 0) && (mx <? n - (m_start r + zlen (m_deliv r)))) eqn:E;
+    cbn [with_lost with_pc m_live m_mode m_pc m_start m_cur m_deliv m_eos m_eos_ok m_kicked m_lost]; rewrite ?PC;
+    repeat split; try reflexivity; try (rewrite orb_true_r; reflexivity); try (rewrite orb_false_r; reflexivity).
+Qed.
+
+Lemma wake_inv e m vs cl pa :
+  good_b m = true -> Inv e m -> npub m + zlen vs + 1 < HALF ->
+  (vs <> [] /\ cl = closed (pq e)) \/ (vs = [] /\ cl = true) ->
+  let q0 := mkQ (regs (pq e)) (next_free (pq e)) (rev vs ++ qd (pq e)) (qpos (pq e)) cl (minl (pq e)) (maxl (pq e)) in
+  let m' := mon_wake_all m (m_log m ++ vs) cl (snd (push_lk q0 (zlen vs))) in
+  good_b m' = true /\ Inv (mkT (fst (push_lk q0 (zlen vs))) (objs e) (nawt e) pa) m'.
+Proof.
+  intros G I HB CS q0 m'.
+  set (qc := mkQ (regs (pq e)) (next_free (pq e)) (qd (pq e)) (qpos (pq e)) cl (minl (pq e)) (maxl (pq e))).
+  assert (GC : Gq (m_log m) qc) by (eapply Gq_same; [apply (i_g _ _ I)|reflexivity..]).
+  destruct (push_lk_spec (m_log m) qc vs GC HB) as (G' & RE & NF & CE & MN & MX & QL & WE).
+  change (mkQ (regs qc) (next_free qc) (rev vs ++ qd qc) (qpos qc) (closed qc) (minl qc) (maxl qc)) with q0 in *.
+  cbn [regs next_free closed minl maxl qd qc] in RE, NF, CE, MN, MX, QL, WE.
+  set (q' := fst (push_lk q0 (zlen vs))) in *.
+  pose proof (i_g _ _ I) as [G1 G2 G3 G4 G5 G6]. fold (npub m) in *.
+  pose proof (zlen_nonneg vs) as VN. pose proof (zlen_nonneg (qd (pq e))) as QN.
+  assert (HW : HALF < W) by reflexivity.
+  assert (VC : vs <> [] -> 1 <= zlen vs).
+  { destruct vs; [congruence|]. intros _. rewrite zlen_cons. pose proof (zlen_nonneg vs). lia. }
+  pose proof (i_mm _ _ I) as (MM1 & MM2).
+  pose proof (i_awt _ _ I) as (AN & AB).
+  set (n' := npub m + zlen vs) in *.
+  assert (NL : zlen (m_log m ++ vs) = n') by (rewrite zlen_app; reflexivity).
+  assert (SUBS : m_subs m' = map (option_map (wk n' (m_max m))) (m_subs m)).
+  { unfold m', mon_wake_all. cbn [m_subs]. rewrite NL. reflexivity. }
+  (* the wake-up list is exactly the set of parked awaiters *)
+  assert (WOK : wake_all_ok (m_subs m) (flat_map wake_of (regs (pq e))) = true).
+  { unfold wake_all_ok. apply andb_true_intro. split; [apply andb_true_intro; split|].
+    - apply nodup_b_NoDup. apply (NoDup_flat_map_sub awt_of); [|exact AN].
+      intros x. unfold wake_of, awt_of. destruct (r_used x); [left|right]; reflexivity.
+    - apply forallb_forall. intros a Ia. apply in_flat_map_rget in Ia as (h & Lh & Ia).
+      unfold wake_of in Ia. destruct (r_used (rget (regs (pq e)) h)) eqn:U; [|destruct Ia].
+      destruct (slot_owner _ _ _ I U) as (s & o & L & E & SB).
+      destruct (inv_rec _ _ _ _ I L) as (r & Gr & LV).
+      pose proof (i_sub _ _ I s o r L Gr) as (_ & _ & _ & _ & _ & _ & _ & AW & _). rewrite E in AW.
+      apply existsb_exists. exists (Some r). split; [apply get_In with (s := s); exact Gr|].
+      unfold parked_on. rewrite LV. cbn [andb]. destruct (m_pc r); cbn [awt_pc] in AW; rewrite AW in Ia; cbn in Ia; try tauto.
+      destruct Ia as [<-|[]]. apply Z.eqb_refl.
+    - apply forallb_forall. intros [r|] Ir; [|reflexivity]. unfold parked_in.
+      destruct (m_live r) eqn:LV; [|reflexivity]. destruct (m_pc r) eqn:PC; try reflexivity.
+      apply In_get in Ir as (s & Gr).
+      destruct (get (objs e) s) as [o|] eqn:GO; [|apply (i_none _ _ I) in GO; congruence].
+      pose proof (i_live _ _ I s o r GO Gr) as SL. rewrite LV in SL.
+      pose proof (live_obj_intro _ _ _ GO SL) as L.
+      pose proof (i_sub _ _ I s o r L Gr) as (U & _ & _ & _ & _ & _ & _ & AW & _). rewrite PC in AW. cbn [awt_pc] in AW.
+      apply memz_In. apply in_flat_map_rget. exists (s_h o). split; [apply rget_used_lt; exact U|].
+      unfold wake_of. rewrite U, AW. left. reflexivity. }
+  split.
+  - (* the judgement *)
+    unfold good_b. rewrite SUBS. unfold m', mon_wake_all. cbn [m_bad m_log].
+    rewrite WE, WOK. cbn [negb]. rewrite orb_false_r.
+    unfold good_b in G. apply andb_prop in G as (GB & GS). rewrite GB. cbn [andb].
+    apply forallb_forall. intros x Ix. apply in_map_iff in Ix as ([r|] & <- & Ir); [|reflexivity].
+    cbn [option_map]. rewrite forallb_forall in GS. specialize (GS _ Ir).
+    pose proof (wk_fields n' (m_max m) r) as (F1 & F2 & F3 & F4 & F5 & F6 & F7 & F8 & F9 & F10).
+    apply (rec_good_ext _ _ r); assumption.
+  - constructor; cbn [pq objs nawt palive]; fold q'.
+    + exact G'.
+    + unfold m', mon_wake_all. cbn [m_min m_max]. rewrite MN, MX. split; assumption.
+    + unfold m', mon_wake_all. cbn [m_closed]. exact CE.
+    + destruct (i_fl _ _ I) as (fl & FL). exists fl. rewrite RE, NF. apply freelist_map_clear. exact FL.
+    + rewrite RE. apply awt_clear; assumption.
+    + intros s. rewrite SUBS, get_map. destruct (get (m_subs m) s) eqn:E; cbn [option_map].
+      * split; [intros X; apply (i_none _ _ I) in X; congruence|discriminate].
+      * split; [reflexivity|intros _; apply (i_none _ _ I); exact E].
+    + intros s o r GO Gr. rewrite SUBS, get_map in Gr. destruct (get (m_subs m) s) as [r0|] eqn:E; [|discriminate].
+      cbn [option_map] in Gr. injection Gr as <-.
+      pose proof (wk_fields n' (m_max m) r0) as (F1 & _). rewrite F1. apply (i_live _ _ I s o r0 GO E).
+    + intros s o r L Gr. change (live_obj e s = Some o) in L.
+      rewrite SUBS, get_map in Gr. destruct (get (m_subs m) s) as [r0|] eqn:E; [|discriminate].
+      cbn [option_map] in Gr. injection Gr as <-.
+      pose proof (wk_fields n' (m_max m) r0) as (F1 & F2 & F3 & F4 & F5 & F6 & F7 & F8 & F9 & F10).
+      pose proof (i_sub _ _ I s o r0 L E) as (U & SB & MD & VM & KK & CU & RG & AW & PO).
+      set (l := rget (regs (pq e)) (s_h o)) in *.
+      rewrite RE, rget_map_clear. fold l.
+      assert (CLR : clear_reg l = with_awt l None) by (unfold clear_reg; rewrite U; reflexivity).
+      rewrite CLR. unfold npub. unfold m' at 1, mon_wake_all at 1. cbn [m_log]. rewrite NL. rewrite CE, MX.
+      unfold sub_ok. cbn [with_awt r_used r_sub r_kicked r_pos r_awt]. rewrite F2, F4, F8, F9, F6.
+      splits; try assumption; try lia.
+      * destruct (m_pc r0); reflexivity.
+      * intros EO. specialize (PO EO). destruct PO as (ST & M0 & M12).
+        assert (ND : n' + 1 - r_pos l <= need_of (n' + 1) (regs (pq e)) (minl (pq e)) \/ r_pos l > n' + 1).
+        { destruct (Z_le_gt_dec (r_pos l) (n' + 1)) as [LE|GT]; [left|right; exact GT].
+          rewrite <- (wrap_small (n' + 1 - r_pos l)) by lia. replace (n' + 1) with (npub m + zlen vs + 1) by (unfold n'; lia).
+          apply need_of_rget. exact U. }
+        unfold pos_ok. cbn [with_awt r_pos]. rewrite F2, F3, F8, F9, F10. unfold consumed, lastp. rewrite F3, F5.
+        unfold consumed, lastp in M0, M12. rewrite <- MM2.
+        split; [exact ST|]. split.
+        -- intros MDE. specialize (M0 MDE). destruct M0 as (A1 & A2 & A3 & A4). rewrite MDE. cbn [Z.eqb andb].
+           splits.
+           ++ exact A1.
+           ++ intros IP. apply A2. destruct (m_pc r0); cbn [idle_pc] in *; try discriminate; reflexivity.
+           ++ intros IP KF. apply A3; [|exact KF]. destruct (m_pc r0); cbn [idle_pc] in *; try discriminate; reflexivity.
+           ++ intros LS. apply orb_false_elim in LS as (LS1 & LS2). specialize (A4 LS1). destruct A4 as (D1 & D2 & D3 & D4).
+              rewrite QL. fold n'. splits; try lia.
+              intros PCE KF DN. destruct CS as [(VS & CC)|(VS & CC)]; [specialize (VC VS); lia|exact CC].
+        -- intros MDE. specialize (M12 MDE). destruct M12 as (B1 & B2 & B3 & B4).
+           assert (MZ : (m_mode r0 =? 0) = false) by lia. rewrite MZ. cbn [andb]. rewrite orb_false_r.
+           splits.
+           ++ exact B1.
+           ++ intros IP. apply B2. destruct (m_pc r0); cbn [idle_pc] in *; try discriminate; reflexivity.
+           ++ intros IP KF. apply B3; [|exact KF]. destruct (m_pc r0); cbn [idle_pc] in *; try discriminate; reflexivity.
+           ++ intros LS. specialize (B4 LS). destruct B4 as (C1 & C2 & C3). splits; try lia.
+              ** intros IP. assert (idle_pc (m_pc r0) = true) by (destruct (m_pc r0); cbn [idle_pc] in *; try discriminate; reflexivity).
+                 specialize (C2 H). lia.
+              ** intros PCE KF DN. destruct CS as [(VS & CC)|(VS & CC)]; [specialize (VC VS); lia|exact CC].
+    + intros s1 s2 o1 o2 L1 L2. apply (i_inj _ _ I s1 s2 o1 o2); assumption.
+    + intros h U. rewrite RE, rget_map_clear in U.
+      assert (U2 : r_used (rget (regs (pq e)) h) = true).
+      { unfold clear_reg in U. destruct (r_used (rget (regs (pq e)) h)) eqn:UU; [reflexivity|congruence]. }
+      apply (i_own _ _ I h U2).
+Qed.
